@@ -210,7 +210,8 @@ def static_vars(src):
 def enc_item(it):
     if isinstance(it, dict):
         return "m" + hexs(str(it)) + "".join("/" + hexs(str(k)) + "~" + hexs(str(v)) for k, v in it.items())
-    kind = "s" if isinstance(it, str) else "b" if isinstance(it, bool) else "i" if isinstance(it, int) else "n"
+    kind = "s" if isinstance(it, str) else "b" if isinstance(it, bool) else "i" if isinstance(it, int) else \
+        "f" if isinstance(it, float) else "n"
     return kind + hexs(str(it))
 
 
@@ -224,7 +225,8 @@ def enc_ctx(ctx: dict) -> str:
             parts.append(f"{hexs(n)}=m{int(bool(v))},{hexs(str(v))},D"
                          + "".join("/" + hexs(str(k)) + "~" + hexs(str(x)) for k, x in v.items()))
         else:
-            kind = "s" if isinstance(v, str) else "b" if isinstance(v, bool) else "i" if isinstance(v, int) else "n"
+            kind = "s" if isinstance(v, str) else "b" if isinstance(v, bool) else "i" if isinstance(v, int) else \
+                "f" if isinstance(v, float) else "n"
             parts.append(f"{hexs(n)}={kind}{int(bool(v))},{hexs(str(v))}")
     return " ".join(["ctx"] + parts)
 
@@ -233,6 +235,7 @@ def dec_scalar(kind, text):
     if kind == "s": return text
     if kind == "i": return int(text)
     if kind == "b": return text == "True"
+    if kind == "f": return float(text)
     return None
 
 
@@ -274,7 +277,7 @@ def has_brace(s: str) -> bool:
 
 # ----------------------------------------------------------------------------------------------------------
 NAMES = ["a", "b", "c", "xs", "ys", "flag", "name", "item", "index", "upper", "first", "last", "é1", "Big", "n_2"]
-FILTERS = ["upper", "lower", "trim", "title", "nofilter", "length", "json", "repr", "bang", "shout"]
+FILTERS = ["upper", "lower", "trim", "title", "nofilter", "length", "json", "repr", "bang", "shout", "boom", "num"]
 # custom filter sets an instance can be constructed with ("none" = a plain Ribosome()).  Some override a builtin,
 # some are named like one-word defaults used by the templates.
 CUSTOM = {
@@ -283,12 +286,16 @@ CUSTOM = {
     "over": {"upper": lambda x: "<<" + str(x).upper() + ">>", "anonymous": lambda x: "***",
              "shout": lambda x: str(x).upper() + "!", "none": lambda x: "-"},
     "dfl": {"dflt": lambda x: "D:" + str(x), "a b": lambda x: "AB", "title": lambda x: str(x)},
+    # callbacks that raise / return something that is not a str (re.sub then raises TypeError) / behave by value
+    "err": {"boom": lambda x: (_ for _ in ()).throw(RuntimeError("boom")), "num": lambda x: 7,
+            "lower": lambda x: x.lower(), "nofilter": lambda x: None, "trim": lambda x: str(x) if x else 1 // 0},
 }
-SETS = ["bang", "bang", "none", "none", "over", "dfl"]
+SETS = ["bang", "bang", "none", "none", "over", "dfl", "err"]
 TEXTS = ["hello ", "x", "\n", " - ", "", "|", "plain", "t", "é", "a b", "#if a", ">t0", ": ", "\ud800", "\x85", "²"]
 BTEXTS = ["{ }", "}{", "{\"k\": \"", "\"}", "{", "}", "{a}", "[{", "}]"]
 SAFE_VALS = ["v", "Hello World", " sp ", 0, 5, "", True, False, None, "a|b", "x y", "é", "#if a", ">t0", "?b",
-             "\ud800", "a\nb", "ǆ", "C:\\new\\table.txt", "a\\\\b", "\\1", "\\g<0>", "x\\", "$1 & \\0"]
+             "\ud800", "a\nb", "ǆ", "C:\\new\\table.txt", "a\\\\b", "\\1", "\\g<0>", "x\\", "$1 & \\0",
+             1.5, 0.0, -0.0, float("nan"), 1e+20, 10 ** 20, -3]
 HOSTILE = ["{{a}}", "{{?b}}", "{{>t0}}", "{{#if a}}x{{/if}}", "}}", "{{", "{", "}", "{{index}}", "{{item}}",
            "{{name|upper}}", "{{#each xs}}q{{/each}}", "{{{", "x}y", "{{secret}}", "{{#else}}", "{{/if}}", "{{/each}}",
            "{{.}}", "{{c|dflt}}", "{{b|", "a}}", "{{>missing}}", "{{#if flag}}", "{{flag", {"k": "v"}, {"a": "{{b}}"}]
@@ -801,7 +808,9 @@ class C12(Prop):
                         for n, v in py.items():
                             try:
                                 r = fn(v)
-                                ent = ("o", r) if isinstance(r, str) else ("r", "TypeError")
+                                # what re.sub makes of the callback's result is CPython's business (a str is spliced,
+                                # None counts as "", anything else is a TypeError): ask it
+                                ent = ("o", r) if isinstance(r, str) else ("o", re.sub("x", lambda _m: r, "x"))
                             except Exception as e:
                                 ent = ("r", type(e).__name__)
                             ents.append(f"{st}:{hexs(f)}:{hexs(n)}:{ent[0]}:{hexs(ent[1])}")
